@@ -207,7 +207,7 @@ def run(tier, seed):
     with Driver(bins["dbg"]) as d:
         facts, _ = FX.load(d)
     ty = [{"tokens": f["tokens"]} for f in facts if FX.typeable(f["tokens"])]
-    n = 150 if tier == "quick" else 1500
+    n = 450 if tier == "quick" else 1500
     payloads = [{"seed": seed, "shard": i, "facts": ty, "n": n, "bin": bins["dbg"], "kind": "dbg"} for i in range(NCPU)]
     if tier == "thorough":
         payloads += [{"seed": seed, "shard": 100 + i, "facts": ty, "n": n // 3, "bin": bins["rel"], "kind": "rel"} for i in range(NCPU)]
